@@ -1,10 +1,12 @@
 from props import Prop, Stream, reg
 
 reg(Prop('C18', [
-    Stream('c18.wops', 20000, 1500000, 'model', exhaustive='every DW_EH_PE byte x sizes {1,2,3,4,8} x constant/symbolic x both byte orders; every size argument 0..255 for write_address/write_offset/write_offset_at'),
-    Stream('c18.rprog', 20000, 1500000, 'model', exhaustive='every relocatable/plain read kind at offsets 0..2 x one relocation of every width at offsets 0..2 x implicit/explicit addends'),
-    Stream('c18.hdr', 10000, 800000, 'model'),
-    Stream('c18.ranges', 10000, 800000, 'model'),
+    Stream('c18.wops', 8000, 1500000, 'model', exhaustive='every DW_EH_PE byte x sizes {1,2,3,4,8} x constant/symbolic x both byte orders; every size argument 0..255 for write_address/write_offset/write_offset_at'),
+    Stream('c18.rprog', 8000, 1500000, 'model', exhaustive='every relocatable/plain read kind at offsets 0..2 x one relocation of every width at offsets 0..2 x implicit/explicit addends'),
+    Stream('c18.hdr', 5000, 800000, 'model'),
+    Stream('c18.ranges', 5000, 800000, 'model'),
+    Stream('c18.write', 1500, 150000, 'oracle', exhaustive='every DWARF version 2..5 x format x address size x byte order x frame-table flavour with all features on'),
+    Stream('c18.corpus', 1, 8, 'oracle', modes=('release',), exhaustive='every corpus variant (gcc/clang, DWARF 2..5, split, type units, dwarf64)'),
 ], level='proof (partial)', clauses=[], design_ref='§5 C18',
     level_text='placeholder',
     technique='Coq proof over a Gallina model of RelocateWriter/RelocateReader + differential correspondence and implementation-side replay of recorded relocations',
